@@ -16,7 +16,10 @@ use std::{
 };
 use subjects::vt::VT;
 
-pub const VERIF: &str = "/verif";
+/// Root of the verification tree (`/verif`, or the snapshot a background run works in).
+pub fn verif_root() -> String {
+	std::env::var("VERIF_ROOT").unwrap_or_else(|_| "/verif".to_string())
+}
 
 #[derive(Clone, Copy, Debug, PartialEq, Eq)]
 pub enum Tier {
@@ -176,7 +179,7 @@ pub fn heartbeat(unit: &str) {
 }
 
 pub fn heartbeat_init(id: &str) {
-	let d = PathBuf::from(format!("{}/target/hb/{}", VERIF, id));
+	let d = PathBuf::from(format!("{}/target/hb/{}", verif_root(), id));
 	let _ = std::fs::remove_dir_all(&d);
 	let _ = std::fs::create_dir_all(&d);
 	*HB_DIR.lock().unwrap() = Some(d);
@@ -184,7 +187,7 @@ pub fn heartbeat_init(id: &str) {
 
 /// Like `heartbeat_init` for worker processes: keeps what other workers wrote.
 pub fn heartbeat_init_keep(id: &str) {
-	let d = PathBuf::from(format!("{}/target/hb/{}", VERIF, id));
+	let d = PathBuf::from(format!("{}/target/hb/{}", verif_root(), id));
 	let _ = std::fs::create_dir_all(&d);
 	*HB_DIR.lock().unwrap() = Some(d);
 }
@@ -309,7 +312,7 @@ pub struct Finding {
 }
 
 pub fn load_findings() -> Vec<Finding> {
-	let p = format!("{}/known_findings.json", VERIF);
+	let p = format!("{}/known_findings.json", verif_root());
 	let Ok(s) = std::fs::read_to_string(&p) else { return vec![] };
 	let j: Json = serde_json::from_str(&s).expect("known_findings.json parses");
 	j["findings"]
@@ -416,7 +419,7 @@ impl Report {
 				"property": v.property, "sub": v.sub, "key": v.key, "detail": v.detail, "case": v.case,
 			});
 			let text = serde_json::to_string_pretty(&body).unwrap();
-			let dir = format!("{}/replays/{}", VERIF, v.property);
+			let dir = format!("{}/replays/{}", verif_root(), v.property);
 			let _ = std::fs::create_dir_all(&dir);
 			let path = format!("{}/{}.json", dir, digest(&text));
 			let _ = std::fs::write(&path, &text);
@@ -456,7 +459,7 @@ impl Report {
 			"wall_s": wall,
 			"violations": unknown,
 		});
-		let dir = format!("{}/evidence", VERIF);
+		let dir = format!("{}/evidence", verif_root());
 		let _ = std::fs::create_dir_all(&dir);
 		std::fs::write(format!("{}/{}.json", dir, self.id), serde_json::to_string_pretty(&ev).unwrap())
 			.expect("write evidence");
